@@ -285,6 +285,20 @@ def rule_siblings(check):
         detail = "bucket key from the tag parameter=%s, values=%s" % (key_ok, sorted(vals, key=str))
         conds = [c for c in f.conds_at(ins[0]) if c["t"] == "pat"]
         ok = ok and len(conds) == 1
+    elif not ins:
+        # entry API: *self.propagation_debug.entry(tag).or_insert(0) += 1
+        pv = Prov(prog)
+        for n in f.nodes():
+            if n.get("k") == "AssignOp" and n.get("op") in ("Add", "AddAssign") and hir.lit_value(n["r"]) == 1:
+                l = hir.peel(n["l"])
+                if l.get("k") == "MethodCall" and l["method"] in ("or_insert", "or_default") and (l["method"] == "or_default" or hir.lit_value(l["args"][0]) == 0):
+                    en = hir.peel(l["recv"])
+                    if en.get("k") == "MethodCall" and en["method"] == "entry" and (hir.place(en["recv"]) or "").endswith(".propagation_debug"):
+                        key_ok = all(r[0] == "param" and r[2] == 1 for r, p in pv.origins(f, en["args"][0]))
+                        conds = [c for c in f.conds_at(n) if c["t"] == "pat"]
+                        other = [c for c in f.conds_at(n) if c["t"] not in ("pat", "closure")]
+                        ok = key_ok and len(conds) == 1 and not other
+                        detail = "bucket key from the tag parameter=%s, entry(tag).or_insert(0) += 1" % key_ok
     check.expect(ok, R, R + "/DebugTelemetry/bucket", hir.loc(f.rec), detail, "DebugTelemetry::inc: " + detail)
     g = _method(prog, "DebugTelemetry", "get_propagation_debug")
     from ..prov import return_exprs
@@ -311,6 +325,28 @@ def rule_siblings(check):
         matches = [n for n in hir.walk(f.body) if n.get("k") == "Match"]
         ok = len(matches) == 1
         seen = set()
+        if not matches:
+            # self.<projection>().m(args) where the projection hands out the wrapped telemetry of every variant
+            body = hir.peel(f.body)
+            while body.get("k") == "BlockExpr" and not body["block"]["stmts"] and "tail" in body["block"]:
+                body = hir.peel(body["block"]["tail"])
+            if hir.is_call(body) and (hir.callee_name(body) or body.get("method")) == m:
+                recv = hir.peel(hir.call_args(body)[0])
+                h = prog.resolve_local(recv) if hir.is_call(recv) else None
+                args_ok = m != "inc" or (hir.local_of(hir.call_args(body)[1]) and f.bindings()[hir.local_of(hir.call_args(body)[1])[0]]["origin"][0] == "param")
+                if h is not None and args_ok and (hir.local_of(hir.call_args(recv)[0]) or (0, ""))[1] == "self":
+                    hm = [n for n in hir.walk(h.body) if n.get("k") == "Match"]
+                    if len(hm) == 1 and (hir.local_of(hm[0]["scrut"]) or (0, ""))[1] == "self":
+                        proj_ok = True
+                        for a in hm[0]["arms"]:
+                            v = hir.pat_variant(a["pat"])
+                            binds = hir.pat_bindings(a["pat"])
+                            b_ = hir.local_of(hir.peel_transparent(a["body"]))
+                            proj_ok = proj_ok and bool(binds) and bool(b_) and b_[0] == binds[0]["local"] and "guard" not in a
+                            seen.add(v.split("::")[-1] if isinstance(v, str) else str(v))
+                        ok = proj_ok and seen == {"Default", "Debug", "NoOp"}
+            check.expect(ok, R, "%s/IastTelemetry/%s" % (R, m), hir.loc(f.rec), "delegates to the same-named method for %s" % sorted(seen), "IastTelemetry::%s does not delegate every variant to the same-named method" % m)
+            continue
         if ok:
             for a in matches[0]["arms"]:
                 v = hir.pat_variant(a["pat"])
